@@ -406,6 +406,16 @@ func TestC06(t *testing.T) {
 				if !e.try(c06Case{Mode: "value", Loc: &v}) {
 					return
 				}
+				// the same three parts handed over as nested joins (two-argument calls whose arguments flatten to three parts)
+				nl, nr, nc := ljn(ljn(a, b), c3), ljn(a, ljn(b, c3)), ljn(lco(c3), lco(ljn(a, b)))
+				for _, nv := range []*Loc{&nl, &nr, &nc} {
+					if !e.try(c06Case{Mode: "value", Loc: nv}) {
+						return
+					}
+				}
+				if !e.try(c06Case{Mode: "reduce", Kind: "jn", Parts: []Loc{ljn(a, b), c3}}) || !e.try(c06Case{Mode: "reduce", Kind: "jn", Parts: []Loc{a, ljn(b, c3)}}) {
+					return
+				}
 			}
 		}
 	}
